@@ -13,7 +13,7 @@ import itertools, json
 import numpy as np
 from .. import core, iso
 
-KINDS = ('pqueue', 'pstack', 'chseed', 'flood')
+KINDS = ('pqueue', 'pstack', 'chseed', 'flood', 'regscan')
 REAL_KIND = 'floodreal'
 
 
@@ -129,7 +129,42 @@ def py_flood(shape, avail, stack, nb, fuel):
     return dict(ok='1', n=str(n), term='1', sum=str(s), pops=str(pops), maxstack=str(maxstack), left=str(sum(av)))
 
 
+def py_regscan(shape, marks, wit, nb):
+    """remove_fake_regmin_max: the outer scan over all positions (C order) with a flood per marked pixel that has a witness"""
+    av = list(marks)
+    n = s = 0
+    N = len(av)
+    for i, p in enumerate(itertools.product(*[range(d) for d in shape])):
+        if not av[i]:
+            continue
+        n += 1; s += i                                    # f.at(pos)
+        for k in nb:                                      # the neighbour probes behind validposition
+            q = [a + b for a, b in zip(p, k)]
+            if all(0 <= x < d for x, d in zip(q, shape)):
+                n += 1; s += _ravelz(shape, q)
+        if wit[i]:
+            av[i] = 0
+            r = py_flood(shape, av, [list(p)], nb, 1 + sum(av))
+            assert r['term'] == '1'
+            n += int(r['n']); s += int(r['sum'])
+            # py_flood works on a copy: redo the clearing on our flags
+            st = [list(p)]
+            while st:
+                c = st.pop()
+                for k in nb:
+                    q = [a + b for a, b in zip(c, k)]
+                    if all(0 <= x < d for x, d in zip(q, shape)):
+                        j = _ravelz(shape, q)
+                        if av[j]:
+                            av[j] = 0
+                            st.append(q)
+    return dict(ok='1', n=str(n), term='1', sum=str(s), left=str(sum(av)))
+
+
 def line_for(w, q):
+    if w == 'regscan':
+        return (f"c10 kind=regscan shape={_csv(q['shape'])} marks={_csv(q['marks'])} wit={_csv(q['wit'])} "
+                f"bshape={_csv(q['bshape'])} bimg={_csv(q['bimg'])}")
     if w == 'pqueue':
         return f"c10 kind=pqueue size={q['size']} limit={q['limit']} ops={_csv(q['ops'])}"
     if w == 'pstack':
@@ -156,6 +191,8 @@ def line_and_direct(w, q):
     if w == 'chseed':
         pos, ok = py_chseed(q['shape'])
         return line, None, True, Verbatim(ok=str(int(ok)), n=str(len(pos)), term='1', sum=str(sum(_ravelz(q['shape'], p) for p in pos)))
+    if w == 'regscan':
+        return line, None, True, Verbatim(py_regscan(q['shape'], q['marks'], q['wit'], _neigh(q['bshape'], q['bimg'])))
     if w == 'flood':
         fuel = q['fuel'] if q.get('fuel') is not None else len(q['stack']) + sum(q['avail']) + 1
         want = py_flood(q['shape'], q['avail'], q['stack'], _neigh(q['bshape'], q['bimg']), fuel)
@@ -189,6 +226,11 @@ def model_cases(rng, n):
         if w in ('pqueue', 'pstack'):
             p = rng.choice([0.3, 0.5, 0.7])
             q = dict(size=R(1, 4), limit=rng.choice([512, 2, 3, 5, 1]), ops=[int(rng.random() < p) for _ in range(R(0, 60))])
+        elif w == 'regscan':
+            f = _flood_case(rng)
+            N = len(f['avail'])
+            q = dict(shape=f['shape'], marks=[int(rng.random() < 0.6) for _ in range(N)], wit=[int(rng.random() < 0.3) for _ in range(N)],
+                     bshape=f['bshape'], bimg=f['bimg'])
         elif w == 'chseed':
             nd = rng.choice([1, 2, 2, 2, 3])
             q = dict(shape=[R(0, 6) for _ in range(nd)])
@@ -202,9 +244,20 @@ def model_cases(rng, n):
     return out
 
 
+def _regmax_case(rng):
+    R = rng.randint
+    nd = rng.choice([1, 2, 2, 3])
+    shape = [R(1, {1: 12, 2: 6, 3: 4}[nd]) for _ in range(nd)]
+    vals = [R(0, rng.choice([1, 2, 4])) for _ in range(int(np.prod(shape)))]       # few levels: plateaus
+    return dict(shape=shape, vals=vals, is_min=rng.choice([0, 1]), bimg=rng.choice(['cross', 'box']))
+
+
 def real_cases(rng, n):
     out, R = [], rng.randint
     for _ in range(n):
+        if rng.random() < 0.35:
+            out.append(dict(kind=REAL_KIND, which='regminmax', p=_regmax_case(rng)))
+            continue
         shape = [R(1, 9), R(1, 9)]
         p = rng.choice([0.2, 0.5, 0.8])
         img = [int(rng.random() < p) for _ in range(shape[0] * shape[1])]
@@ -213,9 +266,70 @@ def real_cases(rng, n):
     return out
 
 
+def _eval_real_reg(q):
+    """mahotas.regmax / regmin against the model's scan: marks = locmax/locmin of the real binary, witnesses computed here from the
+    C++ test (an unmarked neighbour inside the image whose value is <= / >= the pixel's)"""
+    import mahotas as mh
+    shape = q['shape']
+    nd = len(shape)
+    f = np.array(q['vals'], np.int32).reshape(shape)
+    if q['bimg'] == 'cross':
+        Bc = np.zeros([3] * nd, bool)
+        for d in range(nd):
+            idx = [1] * nd
+            for v in (0, 2):
+                idx[d] = v
+                Bc[tuple(idx)] = True
+        Bc[tuple([1] * nd)] = True
+    else:
+        Bc = np.ones([3] * nd, bool)
+    is_min = bool(q['is_min'])
+    marks = (mh.locmin if is_min else mh.locmax)(f, Bc).ravel()
+    real = (mh.regmin if is_min else mh.regmax)(f, Bc).ravel()
+    nb = _neigh([3] * nd, [int(x) for x in Bc.ravel()])
+    # NOTE the witness depends on the CURRENT marks (earlier floods clear marks): it is evaluated lazily by replaying the scan here
+    av = [int(x) for x in marks]
+    wit = [0] * len(av)
+    fl = f.ravel()
+    for i, p in enumerate(itertools.product(*[range(d) for d in shape])):
+        if not av[i]:
+            continue
+        w = False
+        for k in nb:
+            qq = [a + b for a, b in zip(p, k)]
+            if all(0 <= x < d for x, d in zip(qq, shape)):
+                j = _ravelz(shape, qq)
+                if not av[j] and ((is_min and fl[j] <= fl[i]) or (not is_min and fl[j] >= fl[i])):
+                    w = True
+                    break
+        if w:
+            wit[i] = 1
+            av[i] = 0
+            st = [list(p)]
+            while st:
+                c = st.pop()
+                for k in nb:
+                    qq = [a + b for a, b in zip(c, k)]
+                    if all(0 <= x < d for x, d in zip(qq, shape)):
+                        j = _ravelz(shape, qq)
+                        if av[j]:
+                            av[j] = 0
+                            st.append(qq)
+    line = line_for('regscan', dict(shape=shape, marks=[int(x) for x in marks], wit=wit, bshape=[3] * nd, bimg=[int(x) for x in Bc.ravel()]))
+    d = core.drive([line])[0]
+    fnd = []
+    if d.get('ok') != '1':
+        fnd.append(dict(kind='property', key='index-out-of-bounds:regmin_max', detail=dict(line=line, answer=d)))
+    elif d.get('left') != str(int(real.sum())):
+        fnd.append(dict(kind='model', key='flood-real:regmin_max', detail=dict(line=line, answer=d, real=int(real.sum()))))
+    return dict(findings=fnd, nontrivial=True, sig=line, tags=dict(kind=REAL_KIND, which='regminmax', outcome='agree' if not fnd else 'differ'))
+
+
 def eval_real(case, SRC):
     import mahotas as mh
     q = case['p']
+    if case['which'] == 'regminmax':
+        return _eval_real_reg(q)
     shape = q['shape']
     ref = np.array(q['img'], bool).reshape(shape)
     a = ref
